@@ -1366,7 +1366,12 @@ class Interp:
         if q0 == "std::mt19937" or q.startswith(_MT):
             a = [self.val(x) for x in args]
             if a and isinstance(a[0], tuple):
-                return a[0]     # copy/move construction
+                # copy/move construction. A COPY of a live generator (source is an lvalue: by-value parameter, `auto g = rng;`)
+                # replays the draws of the original instead of continuing its sequence: recorded as an event for the legs that
+                # rely on draws being independent
+                if args[0].get("valueCategory") == "lvalue":
+                    self.events.append(("rng_copy", self.where(n)))
+                return a[0]
             tok = ("rng", a[0] if a else None, "seeded")
             self.events.append(("rng_construct", a[0] if a else None))
             return tok
@@ -1540,6 +1545,14 @@ class Interp:
             return self.call(m, argv, this=obj)
         if isinstance(obj, tuple) and obj[0] == "dur" and name == "count":
             return obj[1]
+        if isinstance(obj, str):
+            # std::string is modelled by an immutable Python str (concrete text only)
+            if name in ("c_str", "data"):
+                return obj
+            if name == "empty":
+                return len(obj) == 0
+            if name in ("size", "length"):
+                return len(obj)
         raise Unsupported("member call %s on %s at %s" % (name, type(obj).__name__, self.where(n)))
 
     def e_CallExpr(self, n):
